@@ -168,7 +168,10 @@ impl<'frame> FrameSlice<'frame> {
     /// Reads and consumes a fixed number of bytes from the beginning of the frame,
     /// returning a subslice that encompasses them.
     ///
-    /// If this slice is empty, returns `Ok(None)`.
+    /// If this slice is empty and `count` is not zero, returns `Ok(None)`.
+    /// (Reading zero bytes always succeeds and yields an empty subslice: a zero-length
+    /// value - e.g. an empty string as the last element of a vector - is a value, not
+    /// a missing one.)
     /// Otherwise, if the slice does not contain enough data, it returns `Err`.
     /// If the operation fails then the slice remains unchanged.
     #[inline]
@@ -176,7 +179,7 @@ impl<'frame> FrameSlice<'frame> {
         &mut self,
         count: usize,
     ) -> Result<Option<FrameSlice<'frame>>, LowLevelDeserializationError> {
-        if self.is_empty() {
+        if self.is_empty() && count != 0 {
             return Ok(None);
         }
 
